@@ -37,6 +37,7 @@ func ProfileMatrix(avoid map[string]string) *Profile {
 	p := ProfileFull(avoid)
 	p.Name = "matrix"
 	p.CompanionPackage = true
+	p.ForeignBodies = true
 	p.HostileNames = true
 	p.Recursive = false
 	return p
@@ -49,6 +50,7 @@ func ProfileMinimal(avoid map[string]string) *Profile {
 	p := ProfileFull(avoid)
 	p.Name = "minimal"
 	p.CompanionPackage = true
+	p.ForeignBodies = true
 	p.MaxDataMessages, p.MaxFields = 0, 2
 	p.MaxServices, p.MaxMethods = 1, 1
 	p.SecondFile, p.Recursive, p.MultiFeature, p.SharedRequest = false, false, false, false
